@@ -5,7 +5,7 @@ META = {
     "explanation": "Origin of every keyword of the single run_experiment(...) call, the chained-deps form and its guard, the relative "
                    "identifier list (GRP1); exactly one unconditional combine over those identifiers (GRP2); documented signature, "
                    "ExperimentInstance fields/defaults, stdlib evaluated after the constructors are bound (GRP3); the two documented "
-                   "rejections precede the definition (GRP4); the `experiments` iterable is consumed by one loop only (GRP5); the schema of "
+                   "rejections precede the definition (GRP4); the `experiments` iterable is consumed by one loop only (GRP5); duplicate names are judged within one call and the expansion calls nothing that can reject besides the task constructors (GRP4, GRP6); the schema of "
                    "the expanded task types (SCH1).",
     "rules": ["GRP1", "GRP2", "GRP3", "GRP4", "GRP5", "GRP6", "SCH1"],
     "assumptions": ["'same executions and outputs' follows from identical task definitions (C01–C08), not re-derived here"],
